@@ -1,3 +1,6 @@
+(* C14 proofs: every Key model implements its guard table (first failing guard's typed error, before any
+   derivation), the guard tables are the domains, acceptance = domain for a total derivation, and the
+   validity tables are exactly the alphabets. *)
 Require Import GC.Base.Bytes GC.Codec.Types GC.Codec.Marshal GC.Schemes.Consts GC.Schemes.Keys GC.Schemes.Domain.
 
 Lemma first_invalid_all e s : forallb (valid_char e) s = true <-> first_invalid e s = None.
@@ -27,16 +30,283 @@ Ltac salt_case enc salt :=
 Ltac fin := unfold run_kdf; intros kdf; try reflexivity;
   match goal with |- context [kdf ?a ?b ?c] => destruct (kdf a b c); [left; eauto | right; reflexivity] end.
 
+(* ---- a sharper form of [implements]: on the accepting side Key IS one run of the derivation on arguments
+        that do not depend on the derivation ---- *)
+Definition derives (k : kdf_t -> kres) (gs : list guard) : Prop :=
+  match first_failing gs with
+  | Some e => forall kdf, k kdf = KErr e
+  | None => exists tag bs ns, forall kdf, k kdf = run_kdf kdf tag bs ns
+  end.
+
+Lemma derives_implements k gs : derives k gs -> implements k gs.
+Proof.
+  unfold derives, implements. destruct (first_failing gs); auto.
+  intros (tag & bs & ns & H) kdf. rewrite H. unfold run_kdf.
+  destruct (kdf tag bs ns); [left; eauto | right; reflexivity].
+Qed.
+
+Lemma first_failing_forallb gs :
+  match first_failing gs with Some _ => forallb fst gs = false | None => forallb fst gs = true end.
+Proof.
+  unfold first_failing. induction gs as [|[b e] r IH]; simpl. reflexivity.
+  destruct b; simpl. exact IH. reflexivity.
+Qed.
+
+Theorem derives_accept k gs : derives k gs -> forall kdf, total_kdf kdf -> is_kok (k kdf) = forallb fst gs.
+Proof.
+  unfold derives. intros H kdf T. pose proof (first_failing_forallb gs) as F.
+  destruct (first_failing gs).
+  - rewrite H, F. reflexivity.
+  - destruct H as (tag & bs & ns & H). rewrite H, F. unfold run_kdf.
+    destruct (T tag bs ns) as [key ->]. reflexivity.
+Qed.
+
+(* the two generic consequences of [implements] that do hold *)
+Theorem implements_prompt k gs : implements k gs -> forallb fst gs = false ->
+  forall kdf1 kdf2, k kdf1 = k kdf2.
+Proof.
+  unfold implements. intros H F kdf1 kdf2. pose proof (first_failing_forallb gs) as G.
+  destruct (first_failing gs). rewrite (H kdf1), (H kdf2). reflexivity. congruence.
+Qed.
+Theorem implements_reject k gs : implements k gs -> forallb fst gs = false -> forall kdf, is_kok (k kdf) = false.
+Proof.
+  unfold implements. intros H F kdf. pose proof (first_failing_forallb gs) as G.
+  destruct (first_failing gs). rewrite H. reflexivity. congruence.
+Qed.
+Theorem implements_sound k gs : implements k gs -> forall kdf, is_kok (k kdf) = true -> forallb fst gs = true.
+Proof.
+  intros H kdf A. destruct (forallb fst gs) eqn:F; auto.
+  rewrite (implements_reject _ _ H F kdf) in A. discriminate.
+Qed.
+(* [implements_accept] as first stated (implements k gs -> total_kdf kdf -> is_kok (k kdf) = forallb fst gs)
+   is false: [implements] allows KErr KMissing on the accepting side whatever kdf answers. *)
+Remark implements_accept_refuted :
+  exists k gs, implements k gs /\ forall kdf, is_kok (k kdf) <> forallb fst gs.
+Proof.
+  exists (fun _ => KErr KMissing), []. split.
+  - unfold implements; simpl. intros; right; reflexivity.
+  - simpl. discriminate.
+Qed.
+
+(* ---- closed facts on the prefix constants ---- *)
+Lemma sun_z_nz : bytes_eqb m_sunmd5_PrefixZeroRounds m_sunmd5_PrefixNonZeroRounds = false. Proof. reflexivity. Qed.
+Lemma bc_2b_2 : bytes_eqb m_bcrypt_Prefix2b m_bcrypt_Prefix2 = false. Proof. reflexivity. Qed.
+Lemma bc_2b_2a : bytes_eqb m_bcrypt_Prefix2b m_bcrypt_Prefix2a = false. Proof. reflexivity. Qed.
+Lemma ar_2id_2d : bytes_eqb m_argon2_Prefix2id m_argon2_Prefix2d = false. Proof. reflexivity. Qed.
+Lemma ar_2id_2i : bytes_eqb m_argon2_Prefix2id m_argon2_Prefix2i = false. Proof. reflexivity. Qed.
+Lemma ar_v13_v10 : (m_argon2_Version13 =? m_argon2_Version10) = false. Proof. reflexivity. Qed.
+Lemma ar_v13_v13 : (m_argon2_Version13 =? m_argon2_Version13) = true. Proof. reflexivity. Qed.
+
+(* the rewritten bcrypt password is empty exactly when the password is *)
+Lemma bcrypt_pw_nil (b : bool) (pw : bytes) :
+  (if b then firstn 72 pw else if 254 <=? len pw then repeat 48 72 else pw) = [] <-> pw = [].
+Proof.
+  destruct pw as [|x r].
+  - destruct b; simpl; tauto.
+  - destruct b. simpl; split; discriminate.
+    destruct (254 <=? len (x :: r)); simpl; split; discriminate.
+Qed.
+
+Ltac unf :=
+  unfold derives, first_failing, all_hash, all_b64, first_bad_hash, first_bad_b64,
+         sunmd5_prefix_ok, bcrypt_prefix_ok, argon2_prefix_ok;
+  cbn [find fst snd].
+Ltac red1 := cbn [negb andb orb find fst snd].
+Ltac salt_rw enc salt :=
+  let E := fresh "E" in let c := fresh "c" in let A := fresh "A" in let B := fresh "B" in
+  destruct (first_invalid enc salt) as [c|] eqn:E;
+  [ destruct (first_invalid_bad _ _ _ E) as [A B]; rewrite ?A, ?B
+  | pose proof (proj2 (first_invalid_all enc salt) E) as A; rewrite ?A ];
+  red1.
+Ltac dfin := first [ intros kdf; reflexivity | do 3 eexists; intros kdf; reflexivity ].
+Ltac go :=
+  rewrite ?Z.ltb_antisym; red1;
+  repeat (match goal with
+          | |- context [?a =? ?b] => destruct (a =? b) eqn:?
+          | |- context [?a <=? ?b] => destruct (a <=? b) eqn:?
+          | |- context [bytes_eqb ?a ?b] => destruct (bytes_eqb a b) eqn:?
+          end; red1).
+
 Section P.
 Variable L : limits.
 
-Theorem md5_guards pw salt : implements (fun kdf => key_md5 L kdf pw salt) (guards_md5 L pw salt).
+(* ---- Key = guard table, then one derivation ---- *)
+Lemma md5_derives pw salt : derives (fun kdf => key_md5 L kdf pw salt) (guards_md5 L pw salt).
+Proof. unfold guards_md5, key_md5. unf. salt_rw EncHash salt; go; dfin. Qed.
+
+Lemma sha2_derives tag maxsalt minr maxr pw salt r :
+  derives (fun kdf => key_sha2 kdf tag maxsalt minr maxr pw salt r) (guards_sha2 maxsalt minr maxr pw salt r).
+Proof. unfold guards_sha2, key_sha2. unf. salt_rw EncHash salt; go; dfin. Qed.
+
+Lemma sha256_derives pw salt r : derives (fun kdf => key_sha256 L kdf pw salt r)
+  (guards_sha2 (L_sha256_MaxSalt L) (L_sha256_MinRounds L) (L_sha256_MaxRounds L) pw salt r).
+Proof. apply sha2_derives. Qed.
+Lemma sha512_derives pw salt r : derives (fun kdf => key_sha512 L kdf pw salt r)
+  (guards_sha2 (L_sha512_MaxSalt L) (L_sha512_MinRounds L) (L_sha512_MaxRounds L) pw salt r).
+Proof. apply sha2_derives. Qed.
+
+Lemma sha1_derives rr pw salt r : derives (fun kdf => key_sha1 L kdf rr pw salt r) (guards_sha1 L rr pw salt r).
 Proof.
-  unfold implements, first_failing, guards_md5, key_md5, all_hash, first_bad_hash. cbn [find fst snd].
-  destruct (Z.leb_spec (len salt) (L_md5_MaxSalt L)) as [H|H];
-    [rewrite (proj2 (Z.ltb_ge _ _)) by lia | rewrite (proj2 (Z.ltb_lt _ _)) by lia]; cbn [negb]; [|reflexivity].
-  salt_case EncHash salt.
-  - rewrite H0, H1. cbn. reflexivity.
-  - rewrite H0. cbn. fin.
+  unfold guards_sha1, key_sha1. unf. salt_rw EncHash salt;
+  destruct (r =? L_sha1_RandomRounds L); go; dfin.
 Qed.
+
+Lemma sunmd5_derives pw salt r opts :
+  derives (fun kdf => key_sunmd5 L kdf pw salt r opts) (guards_sunmd5 L pw salt r opts).
+Proof.
+  unfold guards_sunmd5, key_sunmd5. unf. destruct opts as [[p nosep]|]; red1.
+  - salt_rw EncHash salt; go; dfin.
+  - destruct (r =? 0); rewrite ?sun_z_nz, ?bytes_eqb_refl; red1; salt_rw EncHash salt; go; dfin.
+Qed.
+
+Lemma des_derives pw salt : derives (fun kdf => key_des L kdf pw salt) (guards_des L pw salt).
+Proof. unfold guards_des, key_des. unf. salt_rw EncHash salt; go; dfin. Qed.
+
+Lemma desext_derives pw salt r : derives (fun kdf => key_desext L kdf pw salt r) (guards_desext L pw salt r).
+Proof. unfold guards_desext, key_desext. unf. salt_rw EncHash salt; go; dfin. Qed.
+
+Lemma bcrypt_derives pw salt c opts :
+  derives (fun kdf => key_bcrypt L kdf pw salt c opts) (guards_bcrypt L pw salt c opts).
+Proof.
+  unfold guards_bcrypt, key_bcrypt. unf. cbv zeta.
+  destruct opts as [p|]; [|rewrite bc_2b_2, bc_2b_2a, bytes_eqb_refl].
+  all: match goal with |- context [if ?b then firstn 72 ?q else ?x] =>
+         pose proof (bcrypt_pw_nil b q) as Hn; set (pw' := if b then firstn 72 q else x) in *; clearbody pw' end.
+  all: red1; salt_rw EncHash salt; go.
+  all: destruct pw' as [|y r']; destruct pw as [|x r]; cbn [app]; red1;
+       try (exfalso; first [ discriminate (proj1 Hn eq_refl) | discriminate (proj2 Hn eq_refl) ]);
+       dfin.
+Qed.
+
+Lemma nthash_derives enc : derives (fun kdf => key_nthash L kdf enc) (guards_nthash L enc).
+Proof. unfold guards_nthash, key_nthash. unf. cbv zeta. go; dfin. Qed.
+
+Lemma argon2_derives pw salt m t th opts :
+  derives (fun kdf => key_argon2 L kdf pw salt m t th opts) (guards_argon2 L pw salt m t th opts).
+Proof.
+  unfold guards_argon2, key_argon2. unf. destruct opts as [[p v]|]; red1.
+  - salt_rw EncBase64 salt; go; dfin.
+  - rewrite ar_2id_2d, ar_2id_2i, bytes_eqb_refl, ar_v13_v10, ar_v13_v13; red1.
+    salt_rw EncBase64 salt; go; dfin.
+Qed.
+
+(* ---- the stated [implements] theorems ---- *)
+Theorem md5_guards pw salt : implements (fun kdf => key_md5 L kdf pw salt) (guards_md5 L pw salt).
+Proof. apply derives_implements, md5_derives. Qed.
+Theorem sha256_guards pw salt r : implements (fun kdf => key_sha256 L kdf pw salt r)
+  (guards_sha2 (L_sha256_MaxSalt L) (L_sha256_MinRounds L) (L_sha256_MaxRounds L) pw salt r).
+Proof. apply derives_implements, sha256_derives. Qed.
+Theorem sha512_guards pw salt r : implements (fun kdf => key_sha512 L kdf pw salt r)
+  (guards_sha2 (L_sha512_MaxSalt L) (L_sha512_MinRounds L) (L_sha512_MaxRounds L) pw salt r).
+Proof. apply derives_implements, sha512_derives. Qed.
+Theorem sha1_guards rr pw salt r : implements (fun kdf => key_sha1 L kdf rr pw salt r) (guards_sha1 L rr pw salt r).
+Proof. apply derives_implements, sha1_derives. Qed.
+Theorem sunmd5_guards pw salt r opts :
+  implements (fun kdf => key_sunmd5 L kdf pw salt r opts) (guards_sunmd5 L pw salt r opts).
+Proof. apply derives_implements, sunmd5_derives. Qed.
+Theorem des_guards pw salt : implements (fun kdf => key_des L kdf pw salt) (guards_des L pw salt).
+Proof. apply derives_implements, des_derives. Qed.
+Theorem desext_guards pw salt r : implements (fun kdf => key_desext L kdf pw salt r) (guards_desext L pw salt r).
+Proof. apply derives_implements, desext_derives. Qed.
+Theorem bcrypt_guards pw salt c opts :
+  implements (fun kdf => key_bcrypt L kdf pw salt c opts) (guards_bcrypt L pw salt c opts).
+Proof. apply derives_implements, bcrypt_derives. Qed.
+Theorem nthash_guards enc : implements (fun kdf => key_nthash L kdf enc) (guards_nthash L enc).
+Proof. apply derives_implements, nthash_derives. Qed.
+Theorem argon2_guards pw salt m t th opts :
+  implements (fun kdf => key_argon2 L kdf pw salt m t th opts) (guards_argon2 L pw salt m t th opts).
+Proof. apply derives_implements, argon2_derives. Qed.
+
+(* ---- guard tables = domains ---- *)
+Ltac domt := cbn [forallb fst]; rewrite ?andb_true_r, ?andb_assoc; reflexivity.
+
+Theorem md5_dom pw salt : dom_md5 L pw salt = forallb fst (guards_md5 L pw salt).
+Proof. unfold dom_md5, guards_md5. domt. Qed.
+Theorem sha256_dom pw salt r : dom_sha256 L pw salt r =
+  forallb fst (guards_sha2 (L_sha256_MaxSalt L) (L_sha256_MinRounds L) (L_sha256_MaxRounds L) pw salt r).
+Proof. unfold dom_sha256, guards_sha2. domt. Qed.
+Theorem sha512_dom pw salt r : dom_sha512 L pw salt r =
+  forallb fst (guards_sha2 (L_sha512_MaxSalt L) (L_sha512_MinRounds L) (L_sha512_MaxRounds L) pw salt r).
+Proof. unfold dom_sha512, guards_sha2. domt. Qed.
+Theorem sha1_dom rr pw salt r : dom_sha1 L rr pw salt r = forallb fst (guards_sha1 L rr pw salt r).
+Proof. unfold dom_sha1, guards_sha1. domt. Qed.
+Theorem sunmd5_dom pw salt r opts : dom_sunmd5 L pw salt r opts = forallb fst (guards_sunmd5 L pw salt r opts).
+Proof. unfold dom_sunmd5, guards_sunmd5. domt. Qed.
+Theorem des_dom pw salt : dom_des L pw salt = forallb fst (guards_des L pw salt).
+Proof. unfold dom_des, guards_des. domt. Qed.
+Theorem desext_dom pw salt r : dom_desext L pw salt r = forallb fst (guards_desext L pw salt r).
+Proof. unfold dom_desext, guards_desext. domt. Qed.
+Theorem bcrypt_dom pw salt c opts : dom_bcrypt L pw salt c opts = forallb fst (guards_bcrypt L pw salt c opts).
+Proof. unfold dom_bcrypt, guards_bcrypt. domt. Qed.
+Theorem nthash_dom enc : dom_nthash L enc = forallb fst (guards_nthash L enc).
+Proof. unfold dom_nthash, guards_nthash. domt. Qed.
+Theorem argon2_dom pw salt m t th opts :
+  dom_argon2 L pw salt m t th opts = forallb fst (guards_argon2 L pw salt m t th opts).
+Proof. unfold dom_argon2, guards_argon2. destruct opts as [[p v]|]; cbn [andb]; domt. Qed.
+
+(* ---- acceptance = domain, for a derivation that always answers ---- *)
+Theorem md5_accept kdf pw salt : total_kdf kdf -> is_kok (key_md5 L kdf pw salt) = dom_md5 L pw salt.
+Proof. intros T. rewrite md5_dom. exact (derives_accept _ _ (md5_derives pw salt) kdf T). Qed.
+Theorem sha256_accept kdf pw salt r : total_kdf kdf -> is_kok (key_sha256 L kdf pw salt r) = dom_sha256 L pw salt r.
+Proof. intros T. rewrite sha256_dom. exact (derives_accept _ _ (sha256_derives pw salt r) kdf T). Qed.
+Theorem sha512_accept kdf pw salt r : total_kdf kdf -> is_kok (key_sha512 L kdf pw salt r) = dom_sha512 L pw salt r.
+Proof. intros T. rewrite sha512_dom. exact (derives_accept _ _ (sha512_derives pw salt r) kdf T). Qed.
+Theorem sha1_accept kdf rr pw salt r : total_kdf kdf -> is_kok (key_sha1 L kdf rr pw salt r) = dom_sha1 L rr pw salt r.
+Proof. intros T. rewrite sha1_dom. exact (derives_accept _ _ (sha1_derives rr pw salt r) kdf T). Qed.
+Theorem sunmd5_accept kdf pw salt r opts :
+  total_kdf kdf -> is_kok (key_sunmd5 L kdf pw salt r opts) = dom_sunmd5 L pw salt r opts.
+Proof. intros T. rewrite sunmd5_dom. exact (derives_accept _ _ (sunmd5_derives pw salt r opts) kdf T). Qed.
+Theorem des_accept kdf pw salt : total_kdf kdf -> is_kok (key_des L kdf pw salt) = dom_des L pw salt.
+Proof. intros T. rewrite des_dom. exact (derives_accept _ _ (des_derives pw salt) kdf T). Qed.
+Theorem desext_accept kdf pw salt r : total_kdf kdf -> is_kok (key_desext L kdf pw salt r) = dom_desext L pw salt r.
+Proof. intros T. rewrite desext_dom. exact (derives_accept _ _ (desext_derives pw salt r) kdf T). Qed.
+Theorem bcrypt_accept kdf pw salt c opts :
+  total_kdf kdf -> is_kok (key_bcrypt L kdf pw salt c opts) = dom_bcrypt L pw salt c opts.
+Proof. intros T. rewrite bcrypt_dom. exact (derives_accept _ _ (bcrypt_derives pw salt c opts) kdf T). Qed.
+Theorem nthash_accept kdf enc : total_kdf kdf -> is_kok (key_nthash L kdf enc) = dom_nthash L enc.
+Proof. intros T. rewrite nthash_dom. exact (derives_accept _ _ (nthash_derives enc) kdf T). Qed.
+Theorem argon2_accept kdf pw salt m t th opts :
+  total_kdf kdf -> is_kok (key_argon2 L kdf pw salt m t th opts) = dom_argon2 L pw salt m t th opts.
+Proof. intros T. rewrite argon2_dom. exact (derives_accept _ _ (argon2_derives pw salt m t th opts) kdf T). Qed.
 End P.
+
+(* ---- the validity tables are exactly the alphabets (sweep over all 256 byte values) ---- *)
+Definition range256 : list Z := map Z.of_nat (seq 0 256).
+Lemma in_range256 c : 0 <= c < 256 -> In c range256.
+Proof.
+  intros H. unfold range256. apply in_map_iff. exists (Z.to_nat c). split. lia. apply in_seq. lia.
+Qed.
+Lemma sweep256 (f g : Z -> bool) :
+  forallb (fun c => Bool.eqb (f c) (g c)) range256 = true -> forall c, 0 <= c < 256 -> f c = g c.
+Proof.
+  intros H c Hc. rewrite forallb_forall in H. apply eqb_prop. apply H. apply in_range256. exact Hc.
+Qed.
+
+Theorem hash_alphabet_exact : forall c, 0 <= c < 256 -> (valid_char EncHash c = true <-> In c crypt_alphabet).
+Proof.
+  intros c Hc. rewrite <- mem_In.
+  rewrite (sweep256 (valid_char EncHash) (fun c => mem c crypt_alphabet)); [tauto| |exact Hc].
+  vm_compute; reflexivity.
+Qed.
+Theorem base64_alphabet_exact : forall c, 0 <= c < 256 -> (valid_char EncBase64 c = true <-> In c base64_std_alphabet).
+Proof.
+  intros c Hc. rewrite <- mem_In.
+  rewrite (sweep256 (valid_char EncBase64) (fun c => mem c base64_std_alphabet)); [tauto| |exact Hc].
+  vm_compute; reflexivity.
+Qed.
+
+Print Assumptions md5_guards. Print Assumptions sha256_guards. Print Assumptions sha512_guards.
+Print Assumptions sha1_guards. Print Assumptions sunmd5_guards. Print Assumptions des_guards.
+Print Assumptions desext_guards. Print Assumptions bcrypt_guards. Print Assumptions nthash_guards.
+Print Assumptions argon2_guards.
+Print Assumptions md5_dom. Print Assumptions sha256_dom. Print Assumptions sha512_dom.
+Print Assumptions sha1_dom. Print Assumptions sunmd5_dom. Print Assumptions des_dom.
+Print Assumptions desext_dom. Print Assumptions bcrypt_dom. Print Assumptions nthash_dom.
+Print Assumptions argon2_dom.
+Print Assumptions md5_accept. Print Assumptions sha256_accept. Print Assumptions sha512_accept.
+Print Assumptions sha1_accept. Print Assumptions sunmd5_accept. Print Assumptions des_accept.
+Print Assumptions desext_accept. Print Assumptions bcrypt_accept. Print Assumptions nthash_accept.
+Print Assumptions argon2_accept.
+Print Assumptions derives_accept. Print Assumptions implements_prompt. Print Assumptions implements_reject.
+Print Assumptions implements_sound. Print Assumptions implements_accept_refuted.
+Print Assumptions hash_alphabet_exact. Print Assumptions base64_alphabet_exact.
